@@ -47,6 +47,8 @@ fn cfg(tier: Tier, index: u64) -> HistCfg {
         special_keys: false,
         default_table: false,
         big_table: None,
+        empty_mid: false,
+        empty_end: false,
     };
     rare_regions(&mut c, index);
     if index % 300 == 113 {
@@ -89,7 +91,8 @@ fn ro_cfg() -> OpsCfg {
             sync: 0,
             dbsync: 0,
             handles: 3,
-            reopen: 0,
+            // an update-free close + reopen (same parameters) is spliced in as well
+            reopen: 1,
             burst: 0,
         },
         val: ValProfile::Small,
@@ -201,7 +204,7 @@ impl Prop for C18 {
         "C18"
     }
     fn rule(&self) -> String {
-        "each seeded random update history (put/delete/bulk updates, optional clean reopen, all key types, any buffer settings) is executed twice with the same parameters: run A in the worker process, run B in a freshly spawned process, in another directory, with 0-60 generated read-only calls (lookups, traversals, statistics, read_fill_buffer, handle clones) spliced between the updates; after close the three files of A and B must be byte-identical. Non-trivial: the history deletes a present key or overwrites into another slot class (so that slots are freed and reused) and at least 10 read-only calls were spliced; distinct by case digest."
+        "each seeded random update history (put/delete/bulk updates, optional clean reopen, all key types, any buffer settings) is executed twice with the same parameters: run A in the worker process, run B in a freshly spawned process, in another directory, with 0-60 generated read-only calls (lookups, traversals incl. by nth(), iterators created, advanced and kept alive across the following updates without being stepped again, statistics, read_fill_buffer, handle clones and re-lookups, an update-free close + reopen) spliced between the updates; after close the three files of A and B must be byte-identical. Non-trivial: the history deletes a present key or overwrites into another slot class (so that slots are freed and reused) and at least 10 read-only calls were spliced; distinct by case digest."
             .to_string()
     }
     fn assumptions(&self) -> Vec<String> {
